@@ -409,10 +409,14 @@ def inline_gap_step(R: Draw, g: DocGen, doc: dict) -> dict | None:
         return None
     k_, s_ = R.choice(tbs)
     lo, hi = s_ + 1, s_ + k_.size - 1
-    frm = R.int(lo, hi - 1)
-    to = R.int(frm + 1, hi)
-    gap_from = R.int(frm, to)
-    gap_to = R.int(gap_from, to)
+    T = P.tokens_of(doc["c"], rs.leaf_types)
+    ok = [p for p in range(lo, hi + 1) if not S.splits_pair_at(T, p)]
+    if len(ok) < 2:
+        return None
+    frm = R.choice(ok[:-1])
+    to = R.choice([p for p in ok if p > frm])
+    gap_from = R.choice([p for p in ok if frm <= p <= to])
+    gap_to = R.choice([p for p in ok if gap_from <= p <= to])
     txt = g.text(R, 0.15) + g.text(R, 0.15)
     from ..ref import u16
 
